@@ -607,6 +607,11 @@ class Interp:
             return SOpaque("exc", (fn.name, args))
         if isinstance(fn, RepoClass):
             return self.lib.construct(self, fn, args, kwargs, node)
+        if isinstance(fn, SOpaque) and fn.tag == "symfunc":
+            # an arbitrary user function of a vector of reals: uninterpreted
+            F = fn.payload
+            items = self.lib.iterate_concrete(self, args[0], node)
+            return wrap(F(*[treal(x) for x in items]))
         self.err(node, "call of %r" % (fn,))
 
     # ------------------------------------------------------------------ calls into the verified source
